@@ -242,6 +242,25 @@ def gen_universe(rnd, uid):
                      '[F2 Vendor]\nmatch: fuzzy(field.vendor, "STARBUCKS", 0.95)\ntags: vendor\n'}
       files['F3'] = {'suffix': '.csv', 'text': 'Pattern,Merchant,Category,Subcategory,Tags\n'
                      '"fuzzy(""AMAZON"", 0.95)",Amazon F3,Strict-F3,s,\n"fuzzy(""STARBUCKS"", 0.97)",Sbux F3,Strict-F3,c,\n'}
+    if full:
+        # the same transaction handed over WITHOUT supplemental rows (legacy amex/boa parsers) and with OTHER rows
+        for base in (f'{k} ORDER A1', f'{k}5 MKTP'):
+            t0 = next(t for t in txns if t['description'] == base)
+            txns.append(dict(t0, description=base, ds='none', tag='nods:' + base))
+            txns.append(dict(t0, description=base, ds='alt', tag='altds:' + base))
+        # a name bound with := behind a short-circuit by one rule, read through let: by another (evaluator scope)
+        txns.append({'description': 'WIRE ID77 INCOMING', 'amount': 70.0, 'date': '2025-01-15', 'field': None, 'source': 'Chase',
+                     'location': None})
+        txns.append({'description': 'DIRECT DEP REF:ACME', 'amount': 900.0, 'date': '2025-01-15', 'field': None, 'source': 'Chase',
+                     'location': None})
+        files['W1'] = {'suffix': '.rules', 'text':
+                       '[W wire]\nmatch: contains("WIRE") and (ref := extract(description, "ID(\\d+)")) != ""\ncategory: Wire-W\n'
+                       'tags: {ref}\n\n'
+                       '[W pay]\nlet: ref = extract(description, "REF:(\\w+)")\nmatch: ref == "ACME"\ncategory: Income-W\n'
+                       'subcategory: Salary\n\n'
+                       '[W amt]\nmatch: contains("DEP") and amount > 500\ntags: big-dep\n'}
+        files['W2'] = {'suffix': '.rules', 'text': 'ref = "none"\n[W2 any]\nmatch: (amount := 1) > 0 and contains("WIRE")\ncategory: Any-W2\n\n'
+                       '[W2 ref]\nmatch: ref == "none" and contains("DEP")\ncategory: Ref-W2\n'}
     # the SAME path rewritten with another rule set: A2 = A with different transforms and one more tag-only rule;
     # Am = A's text loaded in most_specific mode; M = the file deleted
     t1 = 'field.description = regex_replace(field.description, "^APLPAY\\s+", "")'
@@ -262,11 +281,18 @@ def gen_universe(rnd, uid):
             exprs.append(e)
     fexprs = ['sum(payments) > 10 and "x" in tags', 'count(payments) > 1', 'amount > 100']
     def ix(prefix):
-        return max([j for j, t in enumerate(txns) if t['description'].startswith(prefix)], default=None)
-    tx = {'tw1': ix(f'{k}5 MKTP'), 'tw2': ix(f'{k} x{k.lower()}'), 'nofield': ix(f'{k} NOFIELD'), 'wire': ix(f'APLPAY {k} WIRE'),
+        return max([j for j, t in enumerate(txns) if t['description'].startswith(prefix) and 'tag' not in t], default=None)
+    def itag(tag):
+        return next((j for j, t in enumerate(txns) if t.get('tag') == tag), None)
+    tx = {'a1_nods': itag(f'nods:{k} ORDER A1'), 'a1_alt': itag(f'altds:{k} ORDER A1'), 'tw1_nods': itag(f'nods:{k}5 MKTP'),
+          'tw1_alt': itag(f'altds:{k}5 MKTP'), 'w_t1': ix('WIRE ID77'), 'w_t2': ix('DIRECT DEP REF'),
+          'tw1': ix(f'{k}5 MKTP'), 'tw2': ix(f'{k} x{k.lower()}'), 'nofield': ix(f'{k} NOFIELD'), 'wire': ix(f'APLPAY {k} WIRE'),
           'ord_a1': ix(f'{k} ORDER A1'), 'ord_b2': ix(f'{k} ORDER B2'), 'fz1': ix('AMAZN MKTP'), 'fz2': ix('STARBUCK STARBUCKS')}
     return {'id': uid, 'full': uid < 3, 'tx': tx, 'files': files, 'txns': txns, 'exprs': exprs, 'filter_exprs': fexprs, 'twins': twins, 'leak': leak, 'partial': partial,
             'order_expr': order_expr,
+            'data_sources_alt': {'orders': [{'item': 'Lamp', 'amount': 50.0, 'ref': 'A1', 'date': '2025-09-01'},
+                                            {'item': 'Desk', 'amount': 31.0, 'ref': 'Z9', 'date': {'__date__': '2025-01-02'}}],
+                                 'refunds': [{'ref': 'A1', 'amount': 31.0}]},
             'data_sources': {'orders': [{'item': 'Book', 'amount': 50.0, 'ref': 'A1', 'date': {'__date__': '2025-05-12'}},
                                         {'item': 'Pen', 'amount': 5.0, 'ref': 'B2', 'date': '06/15/2025'}]}}
 
@@ -365,6 +391,18 @@ ARG_VARIANTS = [
 ]
 
 
+SCOPE_PROBES = [
+    ('(k := 5) > 0', 'k > 0'),
+    ('(amount := 1) > 0', 'amount > 10'),
+    ('(description := "X") == "X"', 'contains("MKTP")'),
+    ('any(r.amount > 1 for r in orders)', 'r'),
+    ('[x.item for x in orders]', 'x'),
+    ('any(row.ref == "A1" for row in orders) and (hit := "yes") == "yes"', 'hit'),
+    ('(orders := 3) > 0', '[r.item for r in orders]'),
+    ('(big := True) and contains("MKTP")', 'big'),
+]
+
+
 def rewrite_histories(uni):
     """ALWAYS run: the same path is rewritten with another rule set (other transforms, other tag-only rules, other
     match mode, or deleted) and reloaded in the CLI's order get_transforms -> get_tag_only_rules -> get_all_rules,
@@ -407,6 +445,24 @@ def rewrite_histories(uni):
                    [{'op': 'load', 'file': b, 'order': 'cli'}] + [{'op': 'classify', 'txn': t} for t in fz])
     out.append([{'op': 'engparse', 'file': 'F1'}] + [{'op': 'engmatch', 'txn': t} for t in fz] +
                [{'op': 'engparse', 'file': 'F2'}] + [{'op': 'engmatch', 'txn': t} for t in fz])
+    # supplemental rows are an ARGUMENT of each classification: with rows, then without / with other rows (and back)
+    for with_, other in ((ord_a1, T['a1_nods']), (ord_a1, T['a1_alt']), (tw1, T['tw1_nods']), (tw1, T['tw1_alt'])):
+        seq = [with_, other, with_]
+        out.append([{'op': 'load', 'file': 'A', 'order': 'cli'}] + [{'op': 'classify', 'txn': t} for t in seq])
+        out.append([{'op': 'engparse', 'file': 'A'}] + [{'op': 'engmatch', 'txn': t} for t in seq])
+    out.append([{'op': 'eval', 'src': e, 'txn': ord_a1}, {'op': 'eval', 'src': e, 'txn': T['a1_nods']},
+                {'op': 'eval', 'src': '[r.item for r in orders if r.amount == amount]', 'txn': T['tw1_alt']},
+                {'op': 'eval', 'src': '[r.item for r in orders if r.amount == amount]', 'txn': T['tw1_nods']}])
+    # evaluator scope: a := binding, a comprehension / generator variable, a shadowed primitive must not outlive the
+    # evaluation that made them — across rules, transactions, expressions and reloads
+    for f in ('W1', 'W2'):
+        out.append([{'op': 'load', 'file': f, 'order': 'cli'}, {'op': 'classify', 'txn': T['w_t1']}, {'op': 'classify', 'txn': T['w_t2']}])
+        out.append([{'op': 'engparse', 'file': f}, {'op': 'engmatch', 'txn': T['w_t1']}, {'op': 'engmatch', 'txn': T['w_t2']}])
+    out.append([{'op': 'load', 'file': 'W2', 'order': 'cli'}, {'op': 'classify', 'txn': T['w_t1']}, {'op': 'load', 'file': 'W1', 'order': 'cli'},
+                {'op': 'classify', 'txn': T['w_t2']}, {'op': 'load', 'file': 'A', 'order': 'cli'}, {'op': 'classify', 'txn': tw1}])
+    if uni['id'] == 0:
+        for e1, e2 in SCOPE_PROBES:
+            out.append([{'op': 'eval', 'src': e1, 'txn': tw1}, {'op': 'eval', 'src': e2, 'txn': tw1}])
     # the same call with other trailing arguments, both orders (a memo whose key leaves an argument out)
     for e1, e2, t in (ARG_VARIANTS if uni['id'] == 0 else ARG_VARIANTS[:2]):
         tt = T[t]
